@@ -233,6 +233,7 @@ func c01Directed() []Directed {
 func init() {
 	Register(&Engine{
 		ID:       "C01",
+		Anchors:  []string{"node.go:matchChildren", "segment.go:Segment.Match", "tree.go:Handler", "router.go:serveContext"},
 		Cases:    func(t string) int { return map[string]int{"quick": 1500, "thorough": 120000}[t] },
 		Run:      runC01,
 		Directed: c01Directed,
